@@ -236,7 +236,13 @@ where
                     write_file(&state, p, c);
                 }
                 if let Some(input) = &opts.stdin {
-                    write_file(&state, "/dev/stdin", input);
+                    // Descriptor 0 is already open on the existing inode, so
+                    // its body is replaced (a new inode would not be seen).
+                    let inode = state.borrow().file_system.get("/dev/stdin");
+                    match inode {
+                        Ok(inode) => inode.borrow_mut().body = FileBody::new(input.to_vec()),
+                        Err(_) => write_file(&state, "/dev/stdin", input),
+                    }
                 }
                 async move {
                     let mut argv = vec!["yash".to_string()];
